@@ -1,6 +1,6 @@
 (* C03 -- Line buffer operations are total, keep the cursor valid and report
    every change. Property theorems only. *)
-From RL Require Import UData Uax29 LineBuffer LineBufferOps LineBufferProofs LineBufferTotal.
+From RL Require Import UData Uax29 LineBuffer LineBufferOps LineBufferProofs LineBufferTotal LineBufferAll.
 
 (* EVERY operation of the line buffer, for every Unicode data, every
    segmentation function, every buffer/cursor/parameters: the insert / delete /
@@ -49,6 +49,55 @@ Theorem C03_yank_capacity : forall s n b r b' ev,
   (r = None /\ b' = b /\ ev = []) \/ (r <> None /\ lb_len b' <= cap b /\ cap b' = cap b).
 Proof. exact yank_capacity. Qed.
 Print Assumptions C03_yank_capacity.
+
+(* EVERY operation -- word motions and kills with any count and word definition,
+   character searches, transpositions, case changes, copy / kill of every
+   Movement, indent / dedent, line ranges -- from any buffer whose cursor is on a
+   character boundary: it returns (no slice off a boundary, no underflow, no
+   unwrap of None: the model's Panic is unreachable) and the cursor is on a
+   boundary again. Hypotheses on the segmentation: it is a partition into
+   non-empty clusters. The six operations that take raw byte offsets carry the
+   precondition the crate states for them (op_pre: offsets on boundaries, ordered). *)
+Theorem C03_all_total_wf : forall (seg : str -> list str),
+  (forall s, concat (seg s) = s) -> (forall s g, In g (seg s) -> g <> []) ->
+  forall (U : UData) (o : lbop) (b : lb),
+  wf b -> op_pre o b -> exists a b' ev, lb_apply U seg o b = Ok (a, b', ev) /\ wf b'.
+Proof. exact lb_all_total_wf. Qed.
+Print Assumptions C03_all_total_wf.
+
+(* ... in particular for the UAX #29 segmentation of the model itself: no hypothesis left *)
+Theorem C03_all_total_wf_useg : forall (U : UData) (o : lbop) (b : lb),
+  wf b -> op_pre o b -> exists a b' ev, lb_apply U (useg U) o b = Ok (a, b', ev) /\ wf b'.
+Proof. exact lb_all_total_wf_useg. Qed.
+Print Assumptions C03_all_total_wf_useg.
+
+(* any sequence of operations that take no raw offsets, from any valid buffer:
+   no step panics and every intermediate cursor is on a character boundary *)
+Theorem C03_run_never_panics : forall (seg : str -> list str),
+  (forall s, concat (seg s) = s) -> (forall s g, In g (seg s) -> g <> []) ->
+  forall (U : UData) (ops : list lbop) (b : lb),
+  wf b -> forallb user_op ops = true ->
+  Forall (fun x => exists r b' ev, x = Some (r, b', ev) /\ wf b') (lb_run U seg ops b).
+Proof. exact lb_run_never_panics. Qed.
+Print Assumptions C03_run_never_panics.
+
+(* cursor motion to the line above / below (any display-width function, any count, any prompt column) *)
+Theorem C03_line_moves_total : forall (seg : str -> list str),
+  (forall s, concat (seg s) = s) -> (forall s g, In g (seg s) -> g <> []) ->
+  forall (width : str -> nat) (n pc : nat),
+  total_wf (move_to_line_up seg width n pc) /\ total_wf (move_to_line_down seg width n pc).
+Proof. intros seg H1 H2 width n pc. exact (conj (move_to_line_up_total seg H1 H2 width n pc) (move_to_line_down_total seg H1 H2 width n pc)). Qed.
+Print Assumptions C03_line_moves_total.
+
+(* update (replace the whole text) with a fixed capacity keeps the LONGEST prefix of the new text that ends on a
+   character boundary and fits the capacity -- never more, never a split character; otherwise the whole text *)
+Theorem C03_update_capacity : forall s p b r b' ev,
+  bd s p -> update s p b = Ok (r, b', ev) ->
+  exists t rest, s = t ++ rest /\ buf b' = t /\ pos b' = Nat.min (blen t) p /\ cap b' = cap b /\ grow b' = grow b
+    /\ (must_truncate b (blen s) = false -> rest = [])
+    /\ (must_truncate b (blen s) = true -> blen t <= cap b /\ forall q, bd s q -> q <= cap b -> q <= blen t).
+Proof. exact update_spec. Qed.
+Print Assumptions C03_update_capacity.
 
 Example C03_example :
   let b := mkLb [97; 233; 769; 10; 26085]%N 3 16 false in
